@@ -306,7 +306,18 @@ class FileResponse(StreamResponse):
         count: int = file_size
         start: int | None = None
 
-        if (ifrange := request.if_range) is None or file_mtime <= ifrange.timestamp():
+        ifrange_value = request.headers.get(hdrs.IF_RANGE, "").strip()
+        if ifrange_value.startswith(('"', "W/")):
+            # https://www.rfc-editor.org/rfc/rfc9110#section-13.1.5
+            # An entity-tag validator: the Range is honoured only if it is the
+            # current strong ETag, otherwise the whole file is sent.
+            range_allowed = ifrange_value == f'"{st.st_mtime_ns:x}-{st.st_size:x}"'
+        else:
+            range_allowed = (
+                ifrange := request.if_range
+            ) is None or file_mtime <= ifrange.timestamp()
+
+        if range_allowed:
             # If-Range header check:
             # condition = cached date >= last modification date
             # return 206 if True else 200.
